@@ -13,11 +13,15 @@ MC_CONSTANTS = {
     "C17": {"quick": {"rates": [1, 2, 4, 8, 16], "hz": "0..40 per frame, histories of any length (VIEW)", "stimulus_frames": 24},
             "thorough": {"rates": [1, 2, 4, 8, 16], "hz": "0..40 per frame, histories of any length (VIEW)", "stimulus_frames": 64}},
     "C18": {"quick": {"depth": "1..3 (every history of pushes / exact-zero pushes / resets) + 36 (straight histories, one reset)",
-                      "history": "3*depth+2", "resets": 2, "zero_frames": 7, "grid_stimuli_depths": [35, 36, 37, 50, 64]},
+                      "history": "3*depth+2", "resets": 2, "zero_frames": 7, "grid_stimuli_depths": [35, 36, 37, 50, 64],
+                      "near_grid_depths": [4, 5, 8]},
             "thorough": {"depth": "1..4 + 36, 50, 64", "history": "3*depth+2", "resets": 3, "zero_frames": 9,
-                         "grid_stimuli_depths": [33, 35, 36, 37, 48, 50, 64, 96, 128]}},
-    "C20": {"quick": {"L": "0..10", "b": "2..5", "h": "1..12", "nth": "0..3", "field_assignments": 1},
-            "thorough": {"L": "0..12", "b": "2..6", "h": "1..14", "nth": "0..4", "field_assignments": 2}},
+                         "grid_stimuli_depths": [33, 35, 36, 37, 48, 50, 64, 96, 128],
+                         "near_grid_depths": [4, 5, 6, 7, 8, 16, 36]}},
+    "C20": {"quick": {"L": "0..10", "b": "2..5", "h": "1..12", "nth": "0..3", "field_assignments": 1,
+                      "value_patterns": "L in {b, b+1, 2b, 10}, h in {1, 2, b}"},
+            "thorough": {"L": "0..12", "b": "2..6", "h": "1..14", "nth": "0..4", "field_assignments": 2,
+                         "value_patterns": "L in {b, b+1, 2b, 12}, h in {1, 2, b}"}},
 }
 
 
@@ -34,7 +38,7 @@ def pipeline(ctx, pid, replay=None):
     Returns (functional rejections, heap rejections)."""
     mc_mod, actions, trace_mod, fam, comp = FAMS[pid]
     tier = ctx.tier
-    hx = ctx.cargo_build("hx_dsp2")
+    hx = ctx.cargo_build("hx_dsp2")   # debug build: also the stimulus generator
     rej, heap = [], []
     if replay:
         stim_files = [("replay", replay)]
@@ -47,13 +51,17 @@ def pipeline(ctx, pid, replay=None):
         ctx.harness(hx, ["gen", str(ctx.seed), tier, rnd, fam])
         stim_files = [("tlc", stim), ("random", rnd)]
     jobs = 6
-    for name, sf in stim_files:
-        tr = os.path.join(ctx.work, "%s_trace_%s.ndjson" % (fam, name))
-        rej += ctx.run_stimuli(hx, sf, tr, comp)
+    # both build profiles of the harness (debug: overflow checks and debug assertions on; release: optimised, wrapping):
+    # the specification expects the same outcome in both, so the trace carries no profile; every rejection does
+    for name, prof, hxp, sf in kit.profile_runs(ctx, "hx_dsp2", stim_files, replay):
+        tr = os.path.join(ctx.work, "%s_trace_%s_%s.ndjson" % (fam, name, prof))
+        r = ctx.run_stimuli(hxp, sf, tr, comp)
         ctx.count_distinct(tr)
         n = _lines(tr)
         res = ctx.validate(trace_mod, tr, comp=comp, max_lines=max(1500, n // jobs + 1), jobs=jobs, timeout=1500)
-        rej += res["rejected"]
+        for x in r + res["rejected"] + res["heap"]:
+            x["profile"] = prof
+        rej += r + res["rejected"]
         heap += res["heap"]
         os.remove(tr)
     # which kinds of event were rejected (evidence: e.g. C20 fails on `size_hint` lines only)
@@ -76,7 +84,13 @@ def c17(ctx, replay):
         "antisymmetry elsewhere; its accuracy at other phases is not decided",
         "model checking: rates 1,2,4,8,16 with integer hz 0..40 chosen per frame, unbounded histories; random: rates "
         "44100/48000/96000 (and 3,5,6,7,12,24,48 for special points) with arbitrary finite non-negative hz",
-        "noise: u64 is modelled as Z_4 in MC_Osc; the harness drives seeds 0, 1, 2^32-1, 2^32, 2^63, u64::MAX-1, u64::MAX and random ones",
+        "noise: u64 is modelled as Z_4 in MC_Osc; the harness drives seeds 0, 1, 2^32-1, 2^32, 2^63, u64::MAX-1, u64::MAX and random ones, "
+        "and fixed counters at which each u64 operation of the hash chain (<< 13, x*x, *P1, +P2, *x, +P3) crosses 2^64 - "
+        "started at the counter and up to 5 frames before it - plus counters whose 31 output bits are all set; the spec "
+        "verifies on exact naturals that each labelled counter does cross where it says (Osc.tla NoiseCross), the value "
+        "of the hash is not judged",
+        "both build profiles of the harness are executed (debug: overflow checks and debug assertions on; release: "
+        "optimised, wrapping); the expected outcome is the same in both, every rejection carries its profile",
         "hz mode: the instrumented frequency signals optionally report is_exhausted() after k pulls while they keep "
         "yielding their programmed (non-zero) frequencies, as from_iter(dev).offset_amp(base) does",
         "a clone of an oscillator / noise source taken mid-run continues as the original does: `peek` reads the next m <= 8 "
@@ -95,8 +109,14 @@ def c18(ctx, replay):
         "(distance from the format's equilibrium)",
         "on the grid (x = 0, every ratio-1 converter output) the property's tolerance 1e-12 * peak is applied to every "
         "format: for the integer formats it is less than one LSB, i.e. the delayed source must come out bit for bit",
-        "fractional positions j/16 for Interpolator::interpolate called directly; through the Converter also the positions "
-        "of ratios 1/2, 3/10, 3/2, 7/16, 2, 5/4, 441/480, 160/147; the kernel's shape is not specified by the property and not judged",
+        "fractional positions j/16 for Interpolator::interpolate called directly, and exactly given binary64 positions: "
+        "1 - 2^-k for every k = 1..53 (down to the largest double below 1), 2^-k for k = 1..55 and on to the smallest "
+        "subnormal, a few ulp below 1 / subnormal steps above 0, random full-precision positions in [0, 1); through the "
+        "Converter also the positions of ratios 1/2, 3/10, 3/2, 7/16, 2, 5/4, 441/480, 160/147 and - over constant sources, "
+        "for the constant clause - of ratios whose accumulated phase comes within a few ulp of an integer by itself "
+        "(1/10, 3/10, 7/10, 9/10, 1/7, 2/3, 1/6, 7/5, 49/100 from below; 11/10, 13/10, 1/9, 1/100 from above; up to 420 / 1200 "
+        "outputs); the kernel's shape is not specified by the property and not judged",
+        "both build profiles of the harness are executed (same expectation in both)",
         "linearity inputs are chosen so that a+b and 2^k*a are exact in the frame format (checked by the trace spec); one "
         "input is dense (never silent, no two frames equal), the other is dense too or has structure: runs of exact zeros "
         "of every length 0..2*depth+1 (depth <= 6; thresholds depth-1, depth, depth+1, 2*depth, 2*depth+1 and random lengths "
@@ -115,7 +135,11 @@ def c18(ctx, replay):
 
 def c20(ctx, replay):
     ctx.assumptions += [
-        "bin >= 2, hop >= 1 (the statement's domain); window lengths n >= 2",
+        "bin >= 2, hop >= 1 (the statement's domain); window lengths n >= 2; frame formats f64, f32, i16, u8, u16 (mono / stereo)",
+        "frame values: dense (no frame silent, no two equal) and with structure - exact silence (equilibrium in every "
+        "channel; 128 / 32768 for u8 / u16) at every frame index, i.e. every position of every chunk, in one channel only, "
+        "runs of silence of 2, bin-1, bin, bin+1 frames and the whole array, every second frame silent, runs of one "
+        "repeated frame, a constant array; both build profiles of the harness are executed (same expectation in both)",
         "Hann is pinned at phases k/24 (n-1 divides 24) and by range, symmetry, end/centre values and monotonicity elsewhere "
         "(1e-12 for f64 windows, 2^-22 for f32 windows); stand-alone windows up to n = 4096",
         "chunk frames are compared bit for bit with mul_amp(frame, w) where w is the value observed from a stand-alone Window "
